@@ -74,6 +74,9 @@ func handshakeStallPoints(endpoint string) []string {
 	switch endpoint {
 	case "socket", "packet":
 		return append(garbagePoints(), []string{"after-connect", "partial-request-line", "announce-unsupported-version", "announce-then-bad-upgrade", "between-announce-and-upgrade", "after-upgrade-silence", "after-upgrade-garbage"}...)
+	case "socket+cert", "packet+cert":
+		// plain endpoints that have a certificate offer StartTLS: a peer may stall inside the upgrade
+		return []string{"after-connect", "between-announce-and-upgrade", "starttls-then-silence", "starttls-partial-hello", "starttls-garbage"}
 	case "socket+tls":
 		return []string{"after-connect", "partial-tls-hello", "tls-then-silence", "tls-partial-request-line", "tls-garbage:0", "tls-garbage:7"}
 	case "dns":
@@ -191,6 +194,16 @@ func stall(w *world.World, c Case) (alive func() bool, err error) {
 		raw.Write([]byte("X-SOCKETACE / HTTP/1.1\r\nAccepts-Protocol-Version: v9.9.9\r\nUser-Agent: old-client\r\n\r\n"))
 	case "announce-then-bad-upgrade":
 		raw.Write([]byte(announce + "POST / HTTP/1.1\r\nConnection: close\r\nUpgrade: websocket\r\n\r\n"))
+	case "starttls-then-silence", "starttls-partial-hello", "starttls-garbage":
+		// the peer asks for the upgrade to TLS, gets 101, and stalls inside the TLS handshake
+		raw.Write([]byte(announce + "GET / HTTP/1.1\r\nConnection: upgrade\r\nUpgrade: socketace/v2.0.0\r\nSecurity: StartTLS\r\n\r\n"))
+		bubble.Wait()
+		switch c.Stall {
+		case "starttls-partial-hello":
+			raw.Write([]byte("\x16\x03\x01\x02\x00\x01\x00\x01\xfc\x03\x03\x00\x00\x00\x00"))
+		case "starttls-garbage":
+			raw.Write([]byte("hello, this is not a TLS record at all"))
+		}
 	case "between-announce-and-upgrade":
 		raw.Write([]byte(announce))
 	case "after-upgrade-silence":
@@ -232,6 +245,10 @@ func execute(t *testing.T, c Case) (kind, detail string) {
 		switch c.Endpoint {
 		case "socket":
 			o.Carrier, o.RealLoop = "stream", "socket"
+		case "socket+cert":
+			o.Carrier, o.RealLoop, o.ServerCert, o.ClientKnowsCA = "stream", "socket", "good", true
+		case "packet+cert":
+			o.Carrier, o.RealLoop, o.ServerCert, o.ClientKnowsCA = "stream", "packet", "good", true
 		case "socket+tls":
 			o.Carrier, o.RealLoop, o.TLS, o.ServerCert, o.ClientKnowsCA = "stream", "socket", true, "good", true
 		case "packet":
@@ -340,7 +357,7 @@ func cases(thorough bool) []Case {
 	if thorough {
 		sts, goods = []int{1, 2, 3, 8}, []int{1, 2, 4}
 	}
-	for _, ep := range []string{"socket", "socket+tls", "packet", "dns", "http"} {
+	for _, ep := range []string{"socket", "socket+tls", "packet", "dns", "http", "socket+cert", "packet+cert"} {
 		for _, st := range stallPoints(ep) {
 			for _, stallers := range sts {
 				for _, good := range goods {
